@@ -145,7 +145,7 @@ func installModels(e *Engine) {
 			if sa.Obj == -1 {
 				continue
 			}
-			arr := c.S.Heap[sa.Obj].Val.(ArrayV)
+			arr := e.arr(c, sa.Obj)
 			for i := 0; i < n && sa.Off+i < len(arr.E); i++ {
 				if ai == 0 {
 					el[i] = arr.E[sa.Off+i]
@@ -168,7 +168,7 @@ func installModels(e *Engine) {
 			if sa.Obj == -1 {
 				continue
 			}
-			arr := c.S.Heap[sa.Obj].Val.(ArrayV)
+			arr := e.arr(c, sa.Obj)
 			ne := append([]Value(nil), arr.E...)
 			for i := 0; i < n && sa.Off+i < len(ne); i++ {
 				ne[sa.Off+i] = el[i]
@@ -215,7 +215,7 @@ func installModels(e *Engine) {
 	// path.Join(elems...) for clean, non-empty elements: join with "/"
 	e.intercept["path.Join"] = func(e *Engine, fr *Frame, c *Ctx, a []Value, _ *ssa.CallCommon) (Value, bool) {
 		sl := a[0].(SliceV).Alts[0]
-		arr := c.S.Heap[sl.Obj].Val.(ArrayV)
+		arr := e.arr(c, sl.Obj)
 		n := int(sl.Len.val)
 		var res StrV
 		for i := 0; i < n; i++ {
@@ -256,10 +256,20 @@ func installModels(e *Engine) {
 	}
 	e.intercept["strconv.Itoa"] = func(e *Engine, fr *Frame, c *Ctx, a []Value, _ *ssa.CallCommon) (Value, bool) {
 		t := a[0].(IntV).T
-		if !t.IsConst() {
-			unsup("Itoa on symbolic int")
+		if t.IsConst() {
+			return StrC(fmt.Sprint(int64(t.val))), true
 		}
-		return StrC(fmt.Sprint(int64(t.val))), true
+		if !t.hasIv || t.hi-t.lo > 64 || t.hi >= 1<<62 {
+			unsup("Itoa on symbolic int without a small non-negative interval")
+		}
+		// case split over the interval; decimal digits never contain '/', so the result is a one-piece rope
+		var res Value = flatC(fmt.Sprint(t.hi))
+		for v := int64(t.hi) - 1; v >= int64(t.lo); v-- {
+			res = mergeV(Eq(t, BV(64, uint64(v))), flatC(fmt.Sprint(v)), res)
+		}
+		f := res.(StrV)
+		f.R = nil
+		return StrV{Len: f.Len, B: f.B, R: &Rope{Toks: [][]StrV{{f}}}}, true
 	}
 	concreteOnly("strings.ToUpper", strings.ToUpper)
 	concreteOnly("strings.ToLower", strings.ToLower)
